@@ -28,15 +28,15 @@ CONTRACT = [
     ('abe_policy::access_structure::AccessStructure::add_hierarchy', 'ExistingDimension', 1, 'duplicate dimension name'),
     ('abe_policy::access_structure::AccessStructure::del_dimension', 'DimensionNotFound', 1, 'unknown dimension'),
     ('abe_policy::access_structure::AccessStructure::add_attribute', 'DimensionNotFound', 1, 'unknown dimension'),
-    ('abe_policy::dimension::Dimension::add_attribute', 'OperationNotPermitted', 2, 'duplicate attribute name (both dimension kinds)'),
+    ('abe_policy::dimension::Dimension::add_attribute', 'OperationNotPermitted', 'each-kind', 'duplicate attribute name (both dimension kinds)'),
     ('abe_policy::dimension::Dimension::add_attribute', 'AttributeNotFound', 1, 'unknown `after` attribute'),
     ('abe_policy::access_structure::AccessStructure::del_attribute', 'DimensionNotFound', 1, 'unknown dimension'),
-    ('abe_policy::dimension::Dimension::remove_attribute', 'AttributeNotFound', 2, 'unknown attribute (both kinds)'),
+    ('abe_policy::dimension::Dimension::remove_attribute', 'AttributeNotFound', 'each-kind', 'unknown attribute (both kinds)'),
     ('abe_policy::access_structure::AccessStructure::rename_attribute', 'DimensionNotFound', 1, 'unknown dimension'),
     ('abe_policy::dimension::Dimension::rename_attribute', 'OperationNotPermitted', 2, 'rename onto a used name / unknown (hierarchy)'),
     ('abe_policy::dimension::Dimension::rename_attribute', 'AttributeNotFound', 1, 'unknown attribute (anarchy)'),
     ('abe_policy::access_structure::AccessStructure::disable_attribute', 'DimensionNotFound', 1, 'unknown dimension'),
-    ('abe_policy::dimension::Dimension::disable_attribute', 'AttributeNotFound', 2, 'unknown attribute (both kinds)'),
+    ('abe_policy::dimension::Dimension::disable_attribute', 'AttributeNotFound', 'each-kind', 'unknown attribute (both kinds)'),
     ('abe_policy::access_structure::AccessStructure::get_attribute', 'AttributeNotFound', 1, 'unknown attribute in an encryption policy'),
     ('abe_policy::access_structure::AccessStructure::get_attribute', 'DimensionNotFound', 1, 'unknown dimension in an encryption policy'),
     ('abe_policy::access_structure::AccessStructure::generate_semantic_space', 'DimensionNotFound', 1, 'unknown dimension in a user policy'),
@@ -98,6 +98,59 @@ def error_sites(F, key):
     return cnt, other
 
 
+def arms_without_site(F, fn, variant):
+    """Variants of `self` (the dimension kind) from whose match arm no site raising Error::<variant> can be reached.  A function
+    that does not branch on the kind treats all kinds alike: nothing is missing as long as one site exists."""
+    body = F.bodies[fn]
+
+    def raises(fb):
+        for b in fb.live_blocks():
+            for st in fb.stmts(b):
+                rv = st['rv']
+                if rv['k'] == 'agg' and rv.get('adt', '').endswith(ERR) and rv['variant'] == variant:
+                    return True
+        return False
+    if id(F) not in _CG:
+        _CG.clear()
+        _CG[id(F)] = lib.CallGraph(F)
+    site_blocks = set()
+    for b in sorted(body.live_blocks()):
+        if any(st['rv']['k'] == 'agg' and st['rv'].get('adt', '').endswith(ERR) and st['rv']['variant'] == variant for st in body.stmts(b)):
+            site_blocks.add(b)
+        c = body.call_at(b)
+        if c is not None:
+            tg = [cb.key for (_i, cb, _rv) in lib.closure_args(F, c)]
+            g = lib.local_callee(F, c)
+            if g is not None and g.key != fn:
+                tg.append(g.key)
+            for k in tg:
+                if any(raises(F.bodies[x]) for x in _CG[id(F)].reachable([k]) if x in F.bodies):
+                    site_blocks.add(b)
+    missing = []
+    for b in sorted(body.live_blocks()):
+        t = body.term(b)
+        if t['k'] != 'switch' or not is_place(t['d']):
+            continue
+        _, d = lib.resolve_copy(body, op_local(t['d']))
+        if d is None or d.kind != 'assign' or d.rv['k'] != 'discr':
+            continue
+        ty = body.local_ty(d.rv['pl']['l'])
+        adt = ty.replace('&mut ', '').replace('&', '').strip()
+        if adt not in F.adts or not adt.endswith('Dimension'):
+            continue
+        names = [v['name'] for v in F.adts[adt]['variants']]
+        seen = set()
+        for v, tgt in t['cases']:
+            seen.add(v)
+            if not (body.reach(tgt) & site_blocks):
+                missing.append(names[v] if v < len(names) else str(v))
+        rest = [nm for i, nm in enumerate(names) if i not in seen]
+        if rest and t.get('else') is not None and body.term(t['else'])['k'] != 'unreachable' and not (body.reach(t['else']) & site_blocks):
+            missing += rest
+        break
+    return missing
+
+
 @rule('C09', 'contract-table', configs=('default', 'p256'))
 def contract_table(ctx):
     F = ctx.F
@@ -110,6 +163,13 @@ def contract_table(ctx):
         cnt, other = error_sites(F, fn)
         got = cnt.get(variant, 0) if variant else other
         n += 1
+        if k == 'each-kind':
+            missing = arms_without_site(F, fn, variant)
+            ctx.check(got >= 1 and not missing, fn, 'fails with %s (%s)' % (variant, doc),
+                      '%s raises %s on %d site(s) but not for the dimension kind(s) %s (%s): the documented failure was removed and '
+                      'the operation now succeeds silently there' % (fn, variant, got, missing, doc),
+                      'a %s site is reachable from every arm of the match on the dimension kind' % variant, F.bodies[fn].where())
+            continue
         ctx.check(got >= k, fn, 'fails with %s (%s)' % (variant or 'a dictionary error', doc),
                   '%s has %d site(s) raising %s, the contract needs %d (%s): the documented failure was removed and the '
                   'operation now succeeds silently' % (fn, got, variant or 'a dictionary error', k, doc),
